@@ -55,7 +55,7 @@ Qed.
 Lemma handle_range_no_crash f st from to :
   to < two64 -> fst (handle_range f st from to) <> Crash.
 Proof.
-  intro Hto. unfold handle_range.
+  intro Hto. unfold handle_range, handle_range_k, same.
   destruct (N.leb_spec to from) as [Hle|Hlt]; [cbn; discriminate|].
   destruct (from =? 0); [apply handle_head_no_crash|].
   rewrite (sub64_le to from) by lia.
@@ -80,7 +80,8 @@ Theorem handle_total : forall f st rq, fst (handle f st rq) <> Panic.
 Proof.
   intros f st rq. destruct rq as [o a|id a|]; cbn.
   - pose proof (handle_range_no_crash f st o (wrap64 (o + a)) (wrap64_lt _)) as Hn.
-    destruct (handle_range f st o (wrap64 (o + a))) as [r cs]; cbn in *.
+    unfold handle_range in Hn.
+    destruct (handle_range_k (same f) st o (wrap64 (o + a))) as [r cs]; cbn in *.
     intro Hp. apply status_panic in Hp. congruence.
   - destruct f; cbn; try discriminate.
     destruct (get_hash st id); discriminate.
@@ -422,7 +423,7 @@ Lemma handle_origin_spec st o a :
   wf_store st -> 1 <= o -> o < two64 -> a < two64 ->
   handle FNone st (ROrigin o a) = origin_spec st o a.
 Proof.
-  intros wf Ho1 Ho Ha. unfold origin_spec. cbn [handle]. unfold handle_range.
+  intros wf Ho1 Ho Ha. unfold origin_spec. unfold handle, handle_k, handle_range, handle_range_k, same.
   destruct (N.eqb_spec a 0) as [->|Ha0]; cbn [orb].
   { rewrite N.add_0_r, wrap64_small by exact Ho. destruct (N.leb_spec o o); [reflexivity | lia]. }
   destruct (N.leb_spec two64 (o + a)) as [Hov|Hno]; cbn [orb].
@@ -481,7 +482,7 @@ Lemma handle_range_calls f st o a :
   let cs := range_calls (snd (handle_range f st o (wrap64 (o + a)))) in
   (length cs <= 1)%nat /\ Forall (range_args_ok o a) cs.
 Proof.
-  intros Ho Ha. unfold handle_range.
+  intros Ho Ha. unfold handle_range, handle_range_k, same.
   destruct (N.leb_spec (wrap64 (o + a)) o) as [Hle|Hlt]; [cbn; split; [lia | constructor]|].
   destruct (N.eqb_spec o 0) as [->|Ho0]; [cbn; split; [lia | constructor]|].
   assert (o + a < two64) as Hno.
@@ -504,7 +505,7 @@ Qed.
 Lemma handle_fst_snd f st o a :
   handle f st (ROrigin o a) =
   (status (fst (handle_range f st o (wrap64 (o + a)))), snd (handle_range f st o (wrap64 (o + a)))).
-Proof. cbn. destruct (handle_range f st o (wrap64 (o + a))). reflexivity. Qed.
+Proof. unfold handle, handle_k, handle_range. destruct (handle_range_k (same f) st o (wrap64 (o + a))). reflexivity. Qed.
 
 Theorem origin_bounded_calls : forall f st o a, o < two64 -> a < two64 ->
   let cs := range_calls (snd (handle f st (ROrigin o a))) in
@@ -530,7 +531,7 @@ Qed.
 Lemma fault_no_reads f st from to :
   f <> FNone -> heights_read (snd (handle_range f st from to)) = [].
 Proof.
-  intro Hf. unfold handle_range.
+  intro Hf. unfold handle_range, handle_range_k, same.
   destruct (to <=? from); [reflexivity|]. destruct (from =? 0); [reflexivity|].
   destruct (max_req <? sub64 to from); [reflexivity|].
   unfold serve_range, call_get_range, call_head.
@@ -544,7 +545,7 @@ Proof.
   destruct f.
   2,3: rewrite handle_fst_snd; cbn [snd]; rewrite fault_no_reads by discriminate; apply reads_ok_nil.
   destruct (N.eqb_spec o 0) as [->|Ho0].
-  { rewrite handle_fst_snd. cbn [snd]. unfold handle_range.
+  { rewrite handle_fst_snd. cbn [snd]. unfold handle_range, handle_range_k, same.
     destruct (wrap64 (0 + a) <=? 0); cbn; apply reads_ok_nil. }
   rewrite handle_origin_spec by (try assumption; lia). unfold origin_spec.
   destruct (N.eqb_spec a 0); cbn [orb]; [apply reads_ok_nil|].
@@ -572,8 +573,8 @@ Theorem other_requests_no_range_reads : forall f st id a,
   /\ (a < two64 -> range_calls (snd (handle f st (ROrigin 0 a))) = [] /\ get_calls (snd (handle f st (ROrigin 0 a))) = []).
 Proof.
   intros f st id a. repeat split; try reflexivity.
-  - rewrite handle_fst_snd. cbn [snd]. unfold handle_range. destruct (wrap64 (0 + a) <=? 0); reflexivity.
-  - rewrite handle_fst_snd. cbn [snd]. unfold handle_range. destruct (wrap64 (0 + a) <=? 0); reflexivity.
+  - rewrite handle_fst_snd. cbn [snd]. unfold handle_range, handle_range_k, same. destruct (wrap64 (0 + a) <=? 0); reflexivity.
+  - rewrite handle_fst_snd. cbn [snd]. unfold handle_range, handle_range_k, same. destruct (wrap64 (0 + a) <=? 0); reflexivity.
 Qed.
 
 (** ** replies *)
@@ -617,7 +618,7 @@ Proof. destruct f; [left; reflexivity | right; discriminate | right; discriminat
 Lemma fault_refuses f st rq : f <> FNone -> fst (handle f st rq) = Reset \/ fst (handle f st rq) = NotFound.
 Proof.
   intro Hf. destruct rq as [o a|id a|]; [| |left; reflexivity].
-  - rewrite handle_fst_snd. cbn [fst]. unfold handle_range.
+  - rewrite handle_fst_snd. cbn [fst]. unfold handle_range, handle_range_k, same.
     destruct (wrap64 (o + a) <=? o); [left; reflexivity|].
     destruct (o =? 0); [destruct f; [congruence|left; reflexivity..]|].
     destruct (max_req <? sub64 (wrap64 (o + a)) o); [left; reflexivity|].
@@ -668,7 +669,7 @@ Theorem head_request : forall st a, 1 <= a -> a < two64 ->
   handle FNone st (ROrigin 0 a) =
   (match head_of st with Some h => Ok [h] | None => Reset end, [CHead]).
 Proof.
-  intros st a H1 Ha. cbn [handle]. unfold handle_range.
+  intros st a H1 Ha. unfold handle, handle_k, handle_range, handle_range_k, same.
   rewrite N.add_0_l, wrap64_small by exact Ha.
   destruct (N.leb_spec a 0); [lia|]. cbn [N.eqb].
   unfold handle_head, call_head. destruct (head_of st); reflexivity.
@@ -676,7 +677,7 @@ Qed.
 
 Theorem empty_request : forall f st o, o < two64 -> handle f st (ROrigin o 0) = (Reset, []).
 Proof.
-  intros f st o Ho. cbn [handle]. unfold handle_range.
+  intros f st o Ho. unfold handle, handle_k, handle_range, handle_range_k, same.
   rewrite N.add_0_r, wrap64_small by exact Ho.
   destruct (N.leb_spec o o); [reflexivity|lia].
 Qed.
@@ -739,7 +740,7 @@ Proof.
   - rewrite handle_fst_snd. cbn [fst]. intro Hs.
     assert (fst (handle_range f st o (wrap64 (o + a))) = Ret l) as Hr.
     { destruct (fst (handle_range f st o (wrap64 (o + a)))) as [l'|e|]; cbn in Hs; [congruence|destruct e; discriminate|discriminate]. }
-    clear Hs. revert Hr. unfold handle_range.
+    clear Hs. revert Hr. unfold handle_range, handle_range_k, same.
     destruct (wrap64 (o + a) <=? o); [discriminate|].
     destruct (o =? 0).
     { unfold handle_head, call_head. destruct f; [|discriminate..]. destruct (head_of st) as [h|] eqn:Hh; [|discriminate].
@@ -774,15 +775,15 @@ Qed.
 Theorem static_is_instance : forall f st rq, handle_d f (fun _ => st) rq = handle f st rq.
 Proof. intros f st [o a|id a|]; reflexivity. Qed.
 
-Lemma handle_d_fst_snd f e o a :
-  handle_d f e (ROrigin o a) =
-  (status (fst (handle_range_d f e o (wrap64 (o + a)))), snd (handle_range_d f e o (wrap64 (o + a)))).
-Proof. cbn. destruct (handle_range_d f e o (wrap64 (o + a))). reflexivity. Qed.
+Lemma handle_dk_fst_snd kf e o a :
+  handle_dk kf e (ROrigin o a) =
+  (status (fst (handle_range_dk kf e o (wrap64 (o + a)))), snd (handle_range_dk kf e o (wrap64 (o + a)))).
+Proof. cbn. destruct (handle_range_dk kf e o (wrap64 (o + a))). reflexivity. Qed.
 
-Lemma handle_range_d_no_crash f e from to :
-  to < two64 -> fst (handle_range_d f e from to) <> Crash.
+Lemma handle_range_dk_no_crash kf e from to :
+  to < two64 -> fst (handle_range_dk kf e from to) <> Crash.
 Proof.
-  intro Hto. unfold handle_range_d.
+  intro Hto. unfold handle_range_dk.
   destruct (N.leb_spec to from) as [Hle|Hlt]; [cbn; discriminate|].
   destruct (from =? 0); [apply handle_head_no_crash|].
   rewrite (sub64_le to from) by lia.
@@ -790,7 +791,7 @@ Proof.
   rewrite max_req_val in Hsmall.
   destruct (has_at (e []) (sub64 to 1)).
   - apply serve_range_no_crash. rewrite alloc_limit_val. lia.
-  - unfold call_head. destruct f; cbn; try discriminate.
+  - unfold call_head. destruct (kf KHead); cbn; try discriminate.
     destruct (head_of (e [KHasAt])) as [hd|]; [|cbn; discriminate].
     destruct (N.ltb_spec (h_height hd) from); [cbn; discriminate|].
     rewrite (sub64_le to 1) by lia.
@@ -800,23 +801,23 @@ Proof.
     rewrite alloc_limit_val. lia.
 Qed.
 
-Theorem handle_d_total : forall f e rq, fst (handle_d f e rq) <> Panic.
+Theorem handle_d_totalk : forall kf e rq, fst (handle_dk kf e rq) <> Panic.
 Proof.
-  intros f e rq. destruct rq as [o a|id a|]; cbn.
-  - pose proof (handle_range_d_no_crash f e o (wrap64 (o + a)) (wrap64_lt _)) as Hn.
-    destruct (handle_range_d f e o (wrap64 (o + a))) as [r cs]; cbn in *.
+  intros kf e rq. destruct rq as [o a|id a|]; cbn.
+  - pose proof (handle_range_dk_no_crash kf e o (wrap64 (o + a)) (wrap64_lt _)) as Hn.
+    destruct (handle_range_dk kf e o (wrap64 (o + a))) as [r cs]; cbn in *.
     intro Hp. apply status_panic in Hp. congruence.
-  - destruct f; cbn; try discriminate.
+  - destruct (kf KGet); cbn; try discriminate.
     destruct (get_hash (e []) id); discriminate.
   - discriminate.
 Qed.
 
 (** what the handler asks of the store never grows, whatever the store does meanwhile *)
-Theorem origin_bounded_calls_d : forall f e o a, o < two64 -> a < two64 ->
-  let cs := range_calls (snd (handle_d f e (ROrigin o a))) in
+Theorem origin_bounded_calls_dk : forall kf e o a, o < two64 -> a < two64 ->
+  let cs := range_calls (snd (handle_dk kf e (ROrigin o a))) in
   (length cs <= 1)%nat /\ Forall (range_args_ok o a) cs.
 Proof.
-  intros f e o a Ho Ha. rewrite handle_d_fst_snd. cbn [snd]. unfold handle_range_d.
+  intros kf e o a Ho Ha. rewrite handle_dk_fst_snd. cbn [snd]. unfold handle_range_dk.
   destruct (N.leb_spec (wrap64 (o + a)) o) as [Hle|Hlt]; [cbn; split; [lia | constructor]|].
   destruct (N.eqb_spec o 0) as [->|Ho0]; [cbn; split; [lia | constructor]|].
   assert (o + a < two64) as Hno.
@@ -826,13 +827,13 @@ Proof.
   rewrite (sub64_le (o + a) o) by lia. rewrite (sub64_le (o + a) 1) by lia.
   destruct (N.ltb_spec max_req (o + a - o)) as [Hbig|Hsm]; [cbn; split; [lia | constructor]|].
   destruct (has_at (e []) (o + a - 1)).
-  - destruct (serve_range_calls f (e [KHasAt]) o (o + a) [CHasAt (o + a - 1)]) as (rd & n & ->).
+  - destruct (serve_range_calls (kf KGetRange) (e [KHasAt]) o (o + a) [CHasAt (o + a - 1)]) as (rd & n & ->).
     cbn. split; [lia|]. constructor; [|constructor]. cbn. lia.
-  - destruct (call_head f (e [KHasAt])) as [hd|x|]; [|cbn; split; [lia | constructor]..].
+  - destruct (call_head (kf KHead) (e [KHasAt])) as [hd|x|]; [|cbn; split; [lia | constructor]..].
     destruct (N.ltb_spec (h_height hd) o); [cbn; split; [lia | constructor]|].
     destruct (N.leb_spec (o + a - 1) (h_height hd)); [cbn; split; [lia | constructor]|].
     rewrite wrap64_small by lia.
-    destruct (serve_range_calls f (e [KHasAt; KHead]) o (h_height hd + 1) [CHasAt (o + a - 1); CHead]) as (rd & n & ->).
+    destruct (serve_range_calls (kf KGetRange) (e [KHasAt; KHead]) o (h_height hd + 1) [CHasAt (o + a - 1); CHead]) as (rd & n & ->).
     cbn. split; [lia|]. constructor; [|constructor]. cbn. rewrite max_req_val in *. lia.
 Qed.
 
@@ -1007,12 +1008,12 @@ Proof.
     right. right. exists l. destruct (Hret l eq_refl) as [A B]. auto.
 Qed.
 
-Theorem origin_reply_shape_d : forall f e o a, (forall hist, wf_store (e hist)) ->
+Theorem origin_reply_shape_dk : forall kf e o a, (forall hist, wf_store (e hist)) ->
   1 <= o -> o < two64 -> a < two64 ->
-  range_answer_ok_d e o a (fst (handle_d f e (ROrigin o a))).
+  range_answer_ok_d e o a (fst (handle_dk kf e (ROrigin o a))).
 Proof.
-  intros f e o a wf Ho1 Ho Ha. unfold range_answer_ok_d.
-  rewrite handle_d_fst_snd. cbn [fst]. unfold handle_range_d.
+  intros kf e o a wf Ho1 Ho Ha. unfold range_answer_ok_d.
+  rewrite handle_dk_fst_snd. cbn [fst]. unfold handle_range_dk.
   destruct (N.leb_spec (wrap64 (o + a)) o) as [Hle|Hlt]; [cbn; auto|].
   destruct (N.eqb_spec o 0) as [->|Ho0]; [lia|].
   assert (o + a < two64) as Hno.
@@ -1021,29 +1022,29 @@ Proof.
   rewrite (sub64_le (o + a) o) by lia. rewrite (sub64_le (o + a) 1) by lia.
   destruct (N.ltb_spec max_req (o + a - o)) as [Hbig|Hsm]; [cbn; auto|].
   destruct (has_at (e []) (o + a - 1)).
-  - destruct (serve_step f (e [KHasAt]) [CHasAt (o + a - 1)] o a (o + a) (wf _)
+  - destruct (serve_step (kf KGetRange) (e [KHasAt]) [CHasAt (o + a - 1)] o a (o + a) (wf _)
                 ltac:(lia) ltac:(lia) ltac:(lia) ltac:(lia) eq_refl) as [_ [->|[->|(l & -> & Hl & Hn)]]]; auto.
     right. right. exists l, (e [KHasAt]). split; [reflexivity|]. split; [auto|].
     split; [lia|]. split; [lia|]. split; [exact Hn|]. lia.
-  - unfold call_head. destruct f; cbn [fault_err]; [|cbn; auto..].
+  - unfold call_head. destruct (kf KHead); cbn [fault_err]; [|cbn; auto..].
     destruct (head_of (e [KHasAt])) as [hd|] eqn:Hhd; [|cbn; auto].
     destruct (N.ltb_spec (h_height hd) o); [cbn; auto|].
     destruct (N.leb_spec (o + a - 1) (h_height hd)); [cbn; auto|].
     rewrite wrap64_small by lia.
     assert (h_height hd + 1 - o <= max_req) as Hsm' by (rewrite max_req_val in *; lia).
-    destruct (serve_step FNone (e [KHasAt; KHead]) [CHasAt (o + a - 1); CHead] o a (h_height hd + 1) (wf _)
+    destruct (serve_step (kf KGetRange) (e [KHasAt; KHead]) [CHasAt (o + a - 1); CHead] o a (h_height hd + 1) (wf _)
                 ltac:(lia) ltac:(lia) ltac:(lia) Hsm' eq_refl)
       as [_ [->|[->|(l & -> & Hl & Hn)]]]; auto.
     right. right. exists l, (e [KHasAt; KHead]). split; [reflexivity|]. split; [auto|].
     split; [lia|]. split; [lia|]. split; [exact Hn|]. intros _. exists hd. split; [reflexivity|]. lia.
 Qed.
 
-Theorem origin_bounded_reads_d : forall f e o a, (forall hist, wf_store (e hist)) ->
+Theorem origin_bounded_reads_dk : forall kf e o a, (forall hist, wf_store (e hist)) ->
   o < two64 -> a < two64 ->
-  reads_ok o a (heights_read (snd (handle_d f e (ROrigin o a)))).
+  reads_ok o a (heights_read (snd (handle_dk kf e (ROrigin o a)))).
 Proof.
-  intros f e o a wf Ho Ha.
-  rewrite handle_d_fst_snd. cbn [snd]. unfold handle_range_d.
+  intros kf e o a wf Ho Ha.
+  rewrite handle_dk_fst_snd. cbn [snd]. unfold handle_range_dk.
   destruct (N.leb_spec (wrap64 (o + a)) o) as [Hle|Hlt]; [apply reads_ok_nil|].
   destruct (N.eqb_spec o 0) as [->|Ho0]; [apply reads_ok_nil|].
   assert (o + a < two64) as Hno.
@@ -1052,52 +1053,302 @@ Proof.
   rewrite (sub64_le (o + a) o) by lia. rewrite (sub64_le (o + a) 1) by lia.
   destruct (N.ltb_spec max_req (o + a - o)) as [Hbig|Hsm]; [apply reads_ok_nil|].
   destruct (has_at (e []) (o + a - 1)).
-  - apply (serve_step f (e [KHasAt]) [CHasAt (o + a - 1)] o a (o + a) (wf _)
+  - apply (serve_step (kf KGetRange) (e [KHasAt]) [CHasAt (o + a - 1)] o a (o + a) (wf _)
              ltac:(lia) ltac:(lia) ltac:(lia) ltac:(lia) eq_refl).
-  - destruct (call_head f (e [KHasAt])) as [hd|x|]; [|apply reads_ok_nil..].
+  - destruct (call_head (kf KHead) (e [KHasAt])) as [hd|x|]; [|apply reads_ok_nil..].
     destruct (N.ltb_spec (h_height hd) o); [apply reads_ok_nil|].
     destruct (N.leb_spec (o + a - 1) (h_height hd)); [apply reads_ok_nil|].
     rewrite wrap64_small by lia.
     assert (h_height hd + 1 - o <= max_req) as Hsm' by (rewrite max_req_val in *; lia).
-    apply (serve_step f (e [KHasAt; KHead]) [CHasAt (o + a - 1); CHead] o a (h_height hd + 1) (wf _)
+    apply (serve_step (kf KGetRange) (e [KHasAt; KHead]) [CHasAt (o + a - 1); CHead] o a (h_height hd + 1) (wf _)
              ltac:(lia) ltac:(lia) ltac:(lia) Hsm' eq_refl).
 Qed.
 
-Theorem only_true_data_d : forall f e rq l, fst (handle_d f e rq) = Ok l ->
+(** an OK answer of one GetRange: non-empty, stored headers of the content it read (any content) *)
+Lemma serve_range_true f S from to pre l :
+  fst (serve_range f S from to pre) = Ret l -> l <> [] /\ forall x, In x l -> In x (all_hdrs S).
+Proof.
+  intro E. destruct (serve_range f S from to pre) as [r cs] eqn:Hsr. cbn in E. subst r.
+  split; [|eapply serve_range_in; eauto].
+  unfold serve_range, call_get_range in Hsr. destruct f; [|cbn in Hsr; discriminate..].
+  destruct (get_range S from to) as [r rd] eqn:Hg. destruct r as [l'|x|]; [|destruct x; discriminate|discriminate].
+  injection Hsr as <- _. unfold get_range in Hg.
+  destruct (to <=? from); [discriminate|]. destruct (get_height S (to - 1)); [|discriminate].
+  destruct (alloc_limit <? to - from); [discriminate|].
+  destruct (N.to_nat (to - from - 1)) as [|k]; cbn in Hg.
+  - injection Hg as <- _. discriminate.
+  - destruct (get_hash S (h_prev h)); [|discriminate].
+    destruct (walk_down S k h0) as [[l''|] rd']; cbn in Hg; [|discriminate].
+    injection Hg as <- _. destruct l''; discriminate.
+Qed.
+
+Lemma status_ok r l : status r = Ok l -> r = Ret l.
+Proof. destruct r as [l'|x|]; cbn; [congruence|destruct x; discriminate|discriminate]. Qed.
+
+Theorem only_true_data_dk : forall kf e rq l, fst (handle_dk kf e rq) = Ok l ->
   l <> [] /\ exists hist, forall x, In x l -> In x (all_hdrs (e hist)).
 Proof.
-  intros f e rq l. destruct rq as [o a|id a|]; [| |discriminate].
-  - rewrite handle_d_fst_snd. cbn [fst]. intro Hs.
-    assert (fst (handle_range_d f e o (wrap64 (o + a))) = Ret l) as Hr.
-    { destruct (fst (handle_range_d f e o (wrap64 (o + a)))) as [l'|x|]; cbn in Hs; [congruence|destruct x; discriminate|discriminate]. }
-    clear Hs. revert Hr. unfold handle_range_d.
+  intros kf e rq l. destruct rq as [o a|id a|]; [| |discriminate].
+  - rewrite handle_dk_fst_snd. cbn [fst]. intro Hs. apply status_ok in Hs. revert Hs.
+    unfold handle_range_dk.
     destruct (wrap64 (o + a) <=? o); [discriminate|].
     destruct (o =? 0).
-    { intro Hr. destruct (only_true_data f (e []) (ROrigin 0 1) l) as [A B].
-      - cbn. unfold handle_range. cbn. unfold handle_head in *. cbn in Hr.
-        destruct (call_head f (e [])); cbn in *; congruence.
-      - split; [exact A|]. exists []. exact B. }
+    { unfold handle_head, call_head. destruct (kf KHead); [|discriminate..].
+      destruct (head_of (e [])) as [h|] eqn:Hh; [|discriminate].
+      cbn. intro E. injection E as <-. split; [discriminate|]. exists []. intros x [<-|[]]. apply head_of_in; exact Hh. }
     destruct (max_req <? sub64 (wrap64 (o + a)) o); [discriminate|].
-    assert (forall S from to pre, fst (serve_range f S from to pre) = Ret l ->
-              l <> [] /\ forall x, In x l -> In x (all_hdrs S)) as Hserve.
-    { intros S from to pre E. destruct (serve_range f S from to pre) as [r cs] eqn:Hsr. cbn in E. subst r.
-      split; [|eapply serve_range_in; eauto].
-      unfold serve_range, call_get_range in Hsr. destruct f; [|cbn in Hsr; discriminate..].
-      destruct (get_range S from to) as [r rd] eqn:Hg. destruct r as [l'|x|]; [|destruct x; discriminate|discriminate].
-      injection Hsr as <- _. unfold get_range in Hg.
-      destruct (to <=? from); [discriminate|]. destruct (get_height S (to - 1)); [|discriminate].
-      destruct (alloc_limit <? to - from); [discriminate|].
-      destruct (N.to_nat (to - from - 1)) as [|k]; cbn in Hg.
-      - injection Hg as <- _. discriminate.
-      - destruct (get_hash S (h_prev h)); [|discriminate].
-        destruct (walk_down S k h0) as [[l''|] rd']; cbn in Hg; [|discriminate].
-        injection Hg as <- _. destruct l''; discriminate. }
     destruct (has_at (e []) (sub64 (wrap64 (o + a)) 1)).
-    { intro E. destruct (Hserve _ _ _ _ E) as [A B]. split; [exact A|]. eexists. exact B. }
-    destruct (call_head f (e [KHasAt])) as [hd|x|]; [|discriminate..].
+    { intro E. destruct (serve_range_true _ _ _ _ _ _ E) as [A B]. split; [exact A|]. eexists. exact B. }
+    destruct (call_head (kf KHead) (e [KHasAt])) as [hd|x|]; [|discriminate..].
     destruct (h_height hd <? o); [discriminate|].
     destruct (sub64 (wrap64 (o + a)) 1 <=? h_height hd); [discriminate|].
-    intro E. destruct (Hserve _ _ _ _ E) as [A B]. split; [exact A|]. eexists. exact B.
-  - intro E. destruct (only_true_data f (e []) (RHash id a) l E) as [A B].
-    split; [exact A|]. exists []. exact B.
+    intro E. destruct (serve_range_true _ _ _ _ _ _ E) as [A B]. split; [exact A|]. eexists. exact B.
+  - cbn. destruct (kf KGet); [|discriminate..]. unfold get_hash.
+    destruct (find (fun h => h_id h =? id) (all_hdrs (e []))) as [h|] eqn:E; [|discriminate].
+    cbn. intro E'. injection E' as <-. split; [discriminate|]. exists []. intros x [<-|[]].
+    apply find_some in E. tauto.
+Qed.
+
+(** the single-mode theorems are the instances [kf = same f] *)
+Theorem handle_d_total : forall f e rq, fst (handle_d f e rq) <> Panic.
+Proof. intros f e rq. exact (handle_d_totalk (same f) e rq). Qed.
+
+Theorem origin_bounded_calls_d : forall f e o a, o < two64 -> a < two64 ->
+  let cs := range_calls (snd (handle_d f e (ROrigin o a))) in
+  (length cs <= 1)%nat /\ Forall (range_args_ok o a) cs.
+Proof. intros f e. exact (origin_bounded_calls_dk (same f) e). Qed.
+
+Theorem origin_reply_shape_d : forall f e o a, (forall hist, wf_store (e hist)) ->
+  1 <= o -> o < two64 -> a < two64 ->
+  range_answer_ok_d e o a (fst (handle_d f e (ROrigin o a))).
+Proof. intros f e. exact (origin_reply_shape_dk (same f) e). Qed.
+
+Theorem origin_bounded_reads_d : forall f e o a, (forall hist, wf_store (e hist)) ->
+  o < two64 -> a < two64 ->
+  reads_ok o a (heights_read (snd (handle_d f e (ROrigin o a)))).
+Proof. intros f e. exact (origin_bounded_reads_dk (same f) e). Qed.
+
+Theorem only_true_data_d : forall f e rq l, fst (handle_d f e rq) = Ok l ->
+  l <> [] /\ exists hist, forall x, In x l -> In x (all_hdrs (e hist)).
+Proof. intros f e. exact (only_true_data_dk (same f) e). Qed.
+
+(** * a failure mode per call kind, quiescent store: instances of the changing-store theorems *)
+
+Theorem static_is_instance_k : forall kf st rq, handle_dk kf (fun _ => st) rq = handle_k kf st rq.
+Proof. intros kf st [o a|id a|]; reflexivity. Qed.
+
+Theorem same_mode_is_instance : forall f st rq e,
+  handle f st rq = handle_k (same f) st rq /\ handle_d f e rq = handle_dk (same f) e rq.
+Proof. intros. split; reflexivity. Qed.
+
+Theorem handle_k_total : forall kf st rq, fst (handle_k kf st rq) <> Panic.
+Proof. intros kf st rq. rewrite <- static_is_instance_k. apply handle_d_totalk. Qed.
+
+Theorem origin_bounded_calls_k : forall kf st o a, o < two64 -> a < two64 ->
+  let cs := range_calls (snd (handle_k kf st (ROrigin o a))) in
+  (length cs <= 1)%nat /\ Forall (range_args_ok o a) cs.
+Proof. intros kf st o a Ho Ha. rewrite <- static_is_instance_k. apply origin_bounded_calls_dk; assumption. Qed.
+
+Theorem origin_bounded_reads_k : forall kf st o a, wf_store st -> o < two64 -> a < two64 ->
+  reads_ok o a (heights_read (snd (handle_k kf st (ROrigin o a)))).
+Proof.
+  intros kf st o a wf Ho Ha. rewrite <- static_is_instance_k.
+  apply origin_bounded_reads_dk; [intros _; exact wf | assumption..].
+Qed.
+
+Theorem only_true_data_k : forall kf st rq l, fst (handle_k kf st rq) = Ok l ->
+  l <> [] /\ forall x, In x l -> In x (all_hdrs st).
+Proof.
+  intros kf st rq l E. rewrite <- static_is_instance_k in E.
+  destruct (only_true_data_dk _ _ _ _ E) as [A [hist B]]. split; assumption.
+Qed.
+
+Lemma handle_k_fst_snd kf st o a :
+  handle_k kf st (ROrigin o a) =
+  (status (fst (handle_range_k kf st o (wrap64 (o + a)))), snd (handle_range_k kf st o (wrap64 (o + a)))).
+Proof. cbn. destruct (handle_range_k kf st o (wrap64 (o + a))). reflexivity. Qed.
+
+(** whatever the per-kind modes, the reply is the healthy store's reply or a refusal *)
+Lemma handle_k_healthy_or_refused kf st rq :
+  fst (handle_k kf st rq) = fst (handle FNone st rq)
+  \/ fst (handle_k kf st rq) = Reset \/ fst (handle_k kf st rq) = NotFound.
+Proof.
+  destruct rq as [o a|id a|]; [| |left; reflexivity].
+  - rewrite handle_k_fst_snd, handle_fst_snd. cbn [fst].
+    unfold handle_range, handle_range_k, same.
+    destruct (wrap64 (o + a) <=? o); [left; reflexivity|].
+    destruct (o =? 0).
+    { unfold handle_head. destruct (kf KHead); cbn; auto. }
+    destruct (max_req <? sub64 (wrap64 (o + a)) o); [left; reflexivity|].
+    destruct (has_at st (sub64 (wrap64 (o + a)) 1)).
+    { destruct (kf KGetRange); cbn; auto. }
+    destruct (kf KHead); [|cbn; auto..].
+    destruct (call_head FNone st) as [hd|x|]; [|left; reflexivity..].
+    destruct (h_height hd <? o); [left; reflexivity|].
+    destruct (sub64 (wrap64 (o + a)) 1 <=? h_height hd); [left; reflexivity|].
+    destruct (kf KGetRange); cbn; auto.
+  - unfold handle, handle_k, same, handle_hash. destruct (kf KGet); cbn; auto.
+Qed.
+
+Theorem origin_reply_shape_k : forall kf st o a, wf_store st -> 1 <= o -> o < two64 -> a < two64 ->
+  range_answer_ok st o a (fst (handle_k kf st (ROrigin o a))).
+Proof.
+  intros kf st o a wf Ho1 Ho Ha.
+  destruct (handle_k_healthy_or_refused kf st (ROrigin o a)) as [-> | [-> | ->]];
+    [apply origin_reply_shape; assumption | right; left; reflexivity | left; reflexivity].
+Qed.
+
+(** * a failing or blocking store call: what the peer gets, and that nothing follows it *)
+
+Definition refusal_for (kf : kfault) (c : call) : reply :=
+  match c, fault_of kf c with
+  | CGetRange _ _ _ _, FSlow => NotFound     (* context.DeadlineExceeded from GetRange is mapped to ErrNotFound *)
+  | _, _ => Reset
+  end.
+
+Ltac walk_dk kf e o a :=
+  unfold handle_range_dk;
+  destruct (wrap64 (o + a) <=? o); [|
+  destruct (o =? 0); [unfold handle_head, call_head; destruct (kf KHead); [destruct (head_of (e []))|..] |
+  destruct (max_req <? sub64 (wrap64 (o + a)) o); [|
+  destruct (has_at (e []) (sub64 (wrap64 (o + a)) 1)); [
+    unfold serve_range, call_get_range; destruct (kf KGetRange);
+      [destruct (get_range (e [KHasAt]) o (wrap64 (o + a))) as [[?l|[]|] ?rd]|..] |
+    unfold call_head; destruct (kf KHead); [destruct (head_of (e [KHasAt])) as [hd|]; [
+      destruct (h_height hd <? o); [|
+      destruct (sub64 (wrap64 (o + a)) 1 <=? h_height hd); [|
+      unfold serve_range, call_get_range; destruct (kf KGetRange);
+        [destruct (get_range (e [KHasAt; KHead]) o (wrap64 (h_height hd + 1))) as [[?l|[]|] ?rd]|..]]] |]|..]]]]].
+
+Ltac walk_dke kf e o a :=
+  unfold handle_range_dk;
+  destruct (wrap64 (o + a) <=? o); [|
+  destruct (o =? 0); [unfold handle_head, call_head; destruct (kf KHead) eqn:?EH; [destruct (head_of (e []))|..] |
+  destruct (max_req <? sub64 (wrap64 (o + a)) o); [|
+  destruct (has_at (e []) (sub64 (wrap64 (o + a)) 1)); [
+    unfold serve_range, call_get_range; destruct (kf KGetRange) eqn:?EG;
+      [destruct (get_range (e [KHasAt]) o (wrap64 (o + a))) as [[?l|[]|] ?rd]|..] |
+    unfold call_head; destruct (kf KHead) eqn:?EH; [destruct (head_of (e [KHasAt])) as [hd|]; [
+      destruct (h_height hd <? o); [|
+      destruct (sub64 (wrap64 (o + a)) 1 <=? h_height hd); [|
+      unfold serve_range, call_get_range; destruct (kf KGetRange) eqn:?EG;
+        [destruct (get_range (e [KHasAt; KHead]) o (wrap64 (h_height hd + 1))) as [[?l|[]|] ?rd]|..]]] |]|..]]]]].
+
+Theorem store_failure_reply_dk : forall kf e rq c,
+  In c (snd (handle_dk kf e rq)) -> fault_of kf c <> FNone -> fst (handle_dk kf e rq) = refusal_for kf c.
+Proof.
+  intros kf e rq c. destruct rq as [o a|id a|]; [| |intros []].
+  - rewrite handle_dk_fst_snd. cbn [fst snd]. unfold refusal_for, fault_of.
+    walk_dk kf e o a; cbn; intros Hin Hf;
+      repeat (destruct Hin as [<-|Hin]; [cbn in *; try congruence|]); try contradiction;
+      repeat match goal with H : ?x = FNone |- _ => fail | H : kf _ = _ |- _ => rewrite H in * end; try congruence.
+  - unfold handle_dk, handle_hash, refusal_for, fault_of. cbn.
+    intros [<-|[]] Hf. destruct (kf KGet); [congruence|reflexivity..].
+Qed.
+
+Theorem store_failure_refused_dk : forall kf e rq,
+  (exists c, In c (snd (handle_dk kf e rq)) /\ fault_of kf c <> FNone) ->
+  fst (handle_dk kf e rq) = Reset \/ fst (handle_dk kf e rq) = NotFound.
+Proof.
+  intros kf e rq (c & Hin & Hf). rewrite (store_failure_reply_dk kf e rq c Hin Hf).
+  unfold refusal_for. destruct c; auto. destruct (fault_of kf (CGetRange from to reads returned)); auto.
+Qed.
+
+(** by request kind: the call every OK answer needs *)
+Theorem failure_refused_by_kind_dk : forall kf e,
+  (forall id a, kf KGet <> FNone -> fst (handle_dk kf e (RHash id a)) = Reset)
+  /\ (forall a, kf KHead <> FNone -> fst (handle_dk kf e (ROrigin 0 a)) = Reset)
+  /\ (forall o a, kf KGetRange <> FNone -> 1 <= o ->
+        fst (handle_dk kf e (ROrigin o a)) = Reset \/ fst (handle_dk kf e (ROrigin o a)) = NotFound).
+Proof.
+  intros kf e. split; [|split].
+  - intros id a Hf. unfold handle_dk, handle_hash. destruct (kf KGet); [congruence|reflexivity..].
+  - intros a Hf. rewrite handle_dk_fst_snd. cbn [fst]. unfold handle_range_dk.
+    destruct (wrap64 (0 + a) <=? 0); [reflexivity|]. cbn [N.eqb].
+    unfold handle_head, call_head. destruct (kf KHead); [congruence|reflexivity..].
+  - intros o a Hf Ho. rewrite handle_dk_fst_snd. cbn [fst].
+    destruct (N.eqb_spec o 0) as [->|Hne]; [lia|].
+    unfold handle_range_dk.
+    destruct (wrap64 (o + a) <=? o); [auto|].
+    destruct (N.eqb_spec o 0); [lia|].
+    destruct (max_req <? sub64 (wrap64 (o + a)) o); [auto|].
+    destruct (has_at (e []) (sub64 (wrap64 (o + a)) 1)).
+    { unfold serve_range, call_get_range. destruct (kf KGetRange); [congruence|cbn; auto..]. }
+    destruct (call_head (kf KHead) (e [KHasAt])) as [hd|x|] eqn:Hc.
+    + destruct (h_height hd <? o); [auto|].
+      destruct (sub64 (wrap64 (o + a)) 1 <=? h_height hd); [auto|].
+      unfold serve_range, call_get_range. destruct (kf KGetRange); [congruence|cbn; auto..].
+    + unfold call_head in Hc. destruct (kf KHead); [destruct (head_of (e [KHasAt])); [discriminate|]|..];
+        injection Hc as <-; cbn; auto.
+    + unfold call_head in Hc. destruct (kf KHead); [destruct (head_of (e [KHasAt]))|..]; discriminate.
+Qed.
+
+(** * the call log of one request: its exact shape, and time *)
+
+Theorem log_shape_dk : forall kf e rq, log_shape (snd (handle_dk kf e rq)) = true.
+Proof.
+  intros kf e rq. destruct rq as [o a|id a|]; [| |reflexivity].
+  - rewrite handle_dk_fst_snd. cbn [snd]. walk_dk kf e o a; reflexivity.
+  - reflexivity.
+Qed.
+
+Lemma log_shape_length cs : log_shape cs = true -> (length cs <= 3)%nat.
+Proof.
+  destruct cs as [|c1 [|c2 [|c3 [|c4 r]]]]; cbn; try lia.
+  destruct c1; try discriminate. destruct c2; try discriminate. destruct c3; discriminate.
+Qed.
+
+Theorem faulty_only_last_dk : forall kf e rq, faulty_only_last kf (snd (handle_dk kf e rq)) = true.
+Proof.
+  intros kf e rq. destruct rq as [o a|id a|]; [| |reflexivity].
+  - rewrite handle_dk_fst_snd. cbn [snd]. walk_dke kf e o a; cbn; rewrite ?EH, ?EG; reflexivity.
+  - reflexivity.
+Qed.
+
+(** what [faulty_only_last] says *)
+Lemma faulty_only_last_spec kf cs : faulty_only_last kf cs = true ->
+  forall pre c post, cs = pre ++ c :: post -> fault_of kf c <> FNone -> post = [].
+Proof.
+  induction cs as [|x r IH]; intros H pre c post E Hf.
+  - destruct pre; discriminate.
+  - destruct pre as [|y pre]; cbn in E; injection E as -> ->.
+    + destruct post as [|z post]; [reflexivity|]. cbn in H.
+      apply andb_true_iff in H as [H _]. destruct (fault_of kf c); [congruence|discriminate..].
+    + cbn in H. destruct (pre ++ c :: post) eqn:El; [destruct pre; discriminate|].
+      apply andb_true_iff in H as [_ H]. rewrite <- El in *. eapply IH; eauto.
+Qed.
+
+(** the time model: a log of sequential calls under one deadline ends by the deadline *)
+Lemma finish_le T d cs : forall t, t <= T -> finish T d t cs <= T.
+Proof. induction cs as [|c r IH]; intros t Ht; cbn; [exact Ht|]. apply IH. lia. Qed.
+
+Lemma finish_at_deadline T d cs : finish T d T cs = T.
+Proof. induction cs as [|c r IH]; cbn; [reflexivity|]. replace (N.min (T + d c) T) with T by lia. exact IH. Qed.
+
+(** under the harness's fault modes (a blocking call never returns by itself, the
+    others return at once) the last call returns exactly at the deadline when some
+    call of the log blocks, and at once otherwise *)
+Lemma finish_fault_dur kf T cs :
+  finish T (fault_dur kf T) 0 cs = if existsb (fun c => is_slow (fault_of kf c)) cs then T else 0.
+Proof.
+  induction cs as [|c r IH]; cbn [finish existsb]; [reflexivity|].
+  assert (fault_dur kf T c = match fault_of kf c with FSlow => T | _ => 0 end) as Ed by reflexivity.
+  destruct (fault_of kf c); cbn [is_slow orb]; rewrite Ed.
+  - replace (N.min (0 + 0) T) with 0 by lia. exact IH.
+  - replace (N.min (0 + T) T) with T by lia. apply finish_at_deadline.
+  - replace (N.min (0 + 0) T) with 0 by lia. exact IH.
+Qed.
+
+Theorem one_blocking_call : forall kf e rq,
+  let cs := snd (handle_dk kf e rq) in
+  log_shape cs = true
+  /\ (length cs <= 3)%nat
+  /\ (forall pre c post, cs = pre ++ c :: post -> fault_of kf c <> FNone -> post = [])
+  /\ (forall T d, finish T d 0 cs <= T)
+  /\ (forall T, finish T (fault_dur kf T) 0 cs = if existsb (fun c => is_slow (fault_of kf c)) cs then T else 0).
+Proof.
+  intros kf e rq cs. pose proof (log_shape_dk kf e rq) as Hs. fold cs in Hs.
+  split; [exact Hs|]. split; [apply log_shape_length; exact Hs|].
+  split; [apply faulty_only_last_spec; apply faulty_only_last_dk|].
+  split; [intros T d; apply finish_le; apply N.le_0_l | intro T; apply finish_fault_dur].
 Qed.
